@@ -975,12 +975,14 @@ func vReplay(ctx context.Context, h vHist, timeout time.Duration) (out vOut) {
 			}
 			found, other := false, false
 			for _, e := range s.Ents {
-				if e.Name != name {
+				// a calculated entry also brings its auto-created free index "<name>_time"
+				autoIdx := e.Kind == "calc" && e.Name+"_time" == name
+				if e.Name != name && !autoIdx {
 					continue
 				}
 				found = true
 				l := e.Lease
-				if e.Kind == "free" || e.Kind == "calc" {
+				if e.Kind == "free" || e.Kind == "calc" || autoIdx {
 					l = 0
 				}
 				if vRealLease(l) != key.Leaseholder() {
